@@ -36,7 +36,8 @@ ASSUMPTIONS = ['SCOPE: the object keeps its series and its own bookkeeping in on
                'names used by operations are otherwise ordinary identifiers; '
                '"attributes"/"strict" are used only as item-set names (KeyError since fix 216fc36) and add_variable names '
                '(DuplicateNameError since fix d82b358)',
-               'operand cells: |ints| < 2**31, floats are half-integers or nan/+-inf, strings are not numeric literals; no object-dtype series '
+               'operand cells: |ints| < 2**31, floats are half-integers or nan/+-inf, strings are words or decimal literals of the forms [-]digits, [-]digits.0, [-]digits.5 '
+               '(what float(text) / int(text) parse; no exponents, blanks, underscores, "NaN"/"Infinity" spellings); bytes arrays are not generated; no object-dtype series '
                '(add_variable without dtype never receives None)',
                'span = a Python list / tuple / range of ints (looked up with .index)']
 EXHAUSTIVE = {'quick': False, 'thorough': False}
@@ -54,12 +55,13 @@ def S(v):
 
 
 SCALARS = [['i', 0], ['i', 1], ['i', -3], ['i', 7], ['f', 5], ['f', -1], ['f', 4], ['nan'], ['pinf'], ['ninf'],
-           ['b', 1], ['b', 0], ['s', 'a'], ['s', 'bc'], ['s', 'xyz'], ['s', ''], ['none']]
+           ['b', 1], ['b', 0], ['s', 'a'], ['s', 'bc'], ['s', 'xyz'], ['s', ''], ['none'], ['s', '1.5'], ['s', '13']]
 BY_KIND = {
     'i': [['i', 0], ['i', 1], ['i', -3], ['i', 7], ['i', 12], ['i', 2 ** 40]],
     'f': [['f', 5], ['f', -1], ['f', 4], ['f', 0], ['nan'], ['pinf'], ['ninf']],
     'b': [['b', 1], ['b', 0]],
-    's': [['s', 'a'], ['s', 'bc'], ['s', 'xyz'], ['s', ''], ['s', 'abcdefgh']],
+    's': [['s', 'a'], ['s', 'bc'], ['s', 'xyz'], ['s', ''], ['s', 'abcdefgh'],
+          ['s', '1.5'], ['s', '13'], ['s', '-3'], ['s', '13.5'], ['s', '7.0'], ['s', 'n/a'], ['s', '2.5']],   # text that spells numbers
 }
 
 
@@ -104,8 +106,20 @@ def rand_array(rng, shape, allow_obj=True):
     return ['A', list(shape), dt, cells]
 
 
+def text_column(rng, k):
+    """A column of a text table as a NumPy str array: cells that spell numbers first, one cell LATER that does not convert
+    ('n/a' for floats, '13.5' also for ints) - NumPy converts text element by element."""
+    k = max(k, 0)
+    cells = [['s', rng.choice(['1.5', '2.5', '13', '-3', '7.0', '13'])] for _ in range(k)]
+    if k >= 2 and rng.random() < 0.8:
+        cells[rng.randint(1, k - 1)] = ['s', rng.choice(['n/a', '13.5', '', 'x'])]
+    return ['A', [k], ['U', max([len(c[1]) for c in cells] + [1])], cells]
+
+
 def rand_operand(rng, n, allow_none=True, allow_obj=True):
     """An operand for a whole-series context of n periods."""
+    if rng.random() < 0.06:
+        return text_column(rng, rng.choice([n, n, n, n + 1]))
     r = rng.random()
     if r < 0.22:
         c = rng.choice(SCALARS)
@@ -138,6 +152,8 @@ def rand_operand(rng, n, allow_none=True, allow_obj=True):
 
 
 def rand_slice_operand(rng, k):
+    if rng.random() < 0.1:
+        return text_column(rng, rng.choice([k, k, k, k + 1]))
     r = rng.random()
     if r < 0.3:
         return S(rng.choice(SCALARS))
@@ -361,6 +377,21 @@ def gen(rng, tier):
                   'ops': [['addvar', 'attributes', S(['i', 0]), None], ['addvar', 'strict', S(['i', 0]), 'b'], ['setattr', 'X', li3(4, 5, 6)]]})
     cases.append({'kind': 'vc', 'span': [10, 11, 12], 'strict': False, 'ops': [
         ['addattr', '_q', S(['i', 1])], ['addvar', 'q', S(['i', 0]), None], ['addvar', 'X', li3(1, 2, 3), None]]})
+    # text columns (NumPy str arrays) whose LATER cell does not convert, into float and int series: whole-series assignment by
+    # attribute / item / replace_values and label-slice assignment, on a container, a model and a linker: all-or-nothing
+    def U(*xs):
+        return ['A', [len(xs)], ['U', max(len(x) for x in xs)], [['s', x] for x in xs]]
+    text_ops = [
+        ['setattr', 'X', U('1.5', '2.5', 'n/a')], ['setitem', ['n', 'X'], U('1.5', 'n/a', '2.5')], ['replace', [['X', U('7.0', '2.5', 'x')]]],
+        ['setitem', ['sl', 'X', 10, 11, None], U('1.5', 'n/a')], ['setitem', ['sl', 'X', 10, 12, None], U('1.5', '2.5', '')],
+        ['setattr', 'N', U('13', '13.5', '7')], ['setitem', ['n', 'N'], U('13', '-3', '7.0')], ['replace', [['N', U('13', '7', 'n/a')]]],
+        ['setitem', ['sl', 'N', 11, 12, None], U('13', '13.5')], ['setattr', 'X', U('1.5', '-3', '7.0')], ['setattr', 'N', U('13', '-3', '7')],
+        ['setitem', ['sl', 'N', 10, 12, 2], U('5', 'q')], ['setattr', 'X', ['L', [S(['s', '1.5']), S(['s', '2.5']), S(['s', 'n/a'])]]]]
+    cases.append({'kind': 'vc', 'span': [10, 11, 12], 'strict': False, 'ops': [
+        ['addvar', 'X', li3(1, 2, 3), 'f'], ['addvar', 'N', li3(1, 2, 3), 'i']] + copy.deepcopy(text_ops)})
+    for kind, extra in (('model', 0), ('linker', 0), ('linker', 6)):
+        cases.append({'kind': kind, 'span': [10, 11, 12], 'strict': False, 'names': ['X'], 'dreq': 'f', 'default': S(['f', 0]), 'ivs': [],
+                      'extra': extra, 'ops': [['addvar', 'N', li3(1, 2, 3), 'i']] + copy.deepcopy(text_ops)})
     # sub-array dtypes (fix cf99a8a): refused by add_variable and by a model created with such a dtype
     arr3 = ['A', [3], 'F', [['f', 1], ['f', 2], ['f', 3]]]
     for sub in SUB:
